@@ -141,7 +141,11 @@ func (exec *Executor) getArrayIndex(
 	value any,
 ) (int, error) {
 	found := newList()
+	// A subscript is a path of its own, evaluated by the rules of the path's
+	// mode, also below .**, which relaxes them for the accessors after it.
+	restore := exec.tempSetIgnoreStructuralErrors(exec.path.IsLax())
 	res, err := exec.executeItem(ctx, node, value, found)
+	restore()
 	if res == statusFailed {
 		if err == nil {
 			// The error was suppressed; still report the failure so that the
